@@ -64,6 +64,39 @@ func (g *gidAnalysis) isNewSource(v ssa.Value) bool {
 		if lk, ok := x.Tuple.(*ssa.Lookup); ok && x.Index == 0 {
 			return g.isNewSource(lk)
 		}
+		// the value of an entry of a table that a subsetting method returned (already renumbered)
+		if nx, ok := x.Tuple.(*ssa.Next); ok && x.Index == 2 {
+			if rg, ok := nx.Iter.(*ssa.Range); ok {
+				src := rg.X
+				for n := 0; n < 8; n++ {
+					switch y := src.(type) {
+					case *ssa.Extract:
+						if ta, ok := y.Tuple.(*ssa.TypeAssert); ok {
+							src = ta
+							continue
+						}
+					case *ssa.TypeAssert:
+						src = y.X
+						continue
+					case *ssa.ChangeInterface:
+						src = y.X
+						continue
+					case *ssa.MakeInterface:
+						src = y.X
+						continue
+					case *ssa.ChangeType:
+						src = y.X
+						continue
+					}
+					break
+				}
+				if call, ok := src.(*ssa.Call); ok {
+					if callee := call.Call.StaticCallee(); callee != nil && strings.HasPrefix(callee.Name(), "Subset") && callee.Signature.Recv() != nil && strings.HasSuffix(callee.Signature.Recv().Type().String(), ".subsetter") {
+						return true
+					}
+				}
+			}
+		}
 		// range over a []glyph.ID (list of old ids): the key is the new id, handled in Convert
 	case *ssa.Call:
 		if callee := x.Call.StaticCallee(); callee != nil && callee.Name() == "getNewGid" {
@@ -222,7 +255,7 @@ func fieldOfOutput(addr ssa.Value) (bool, string) {
 // C10: subsetting keeps every selected glyph intact and consistently re-indexed.
 func propC10(w *World, r *Report) {
 	e := NewEffects(w)
-	r.Rule("gidsort: in the subsetting functions every glyph id stored into a table of the subset (map key or value, slice element, struct field, glyph.Pair) carries the NEW numbering — it comes from the old->new map, from getNewGid, or is a position in the retained-glyph list — and every lookup of the old->new map is keyed by an OLD id || closurepair: when a glyph is appended to the retained list, the old->new map is updated for that same glyph || dropped: every subtable value constructed while rebuilding a lookup is appended to the new lookup's subtable list || pairedappend: per-font-dictionary arrays of the subset (Private, FontMatrices) are extended together, from the same old index || encodingpos: the subset's built-in encoding is filled position by position from the old encoding (all 256 codes are visited) || readonly: subsetting does not write the source font (effect analysis) || covorder: coverage indices of a rebuilt subtable are not handed out in map iteration order (a coverage table must number its glyphs in increasing glyph order, otherwise writing the subset panics)")
+	r.Rule("gidsort: in the subsetting functions every glyph id stored into a table of the subset (map key or value, slice element, struct field, glyph.Pair) carries the NEW numbering — it comes from the old->new map, from getNewGid, is a position in the retained-glyph list, or is an entry of a table that a subsetter method returned — and every lookup of the old->new map is keyed by an OLD id || closurepair: when a glyph is appended to the retained list, the old->new map is updated for that same glyph || dropped: every subtable value constructed while rebuilding a lookup is appended to the new lookup's subtable list || pairedappend: per-font-dictionary arrays of the subset (Private, FontMatrices) are extended together, from the same old index || encodingpos: the subset's built-in encoding is filled position by position from the old encoding (all 256 codes are visited) || readonly: subsetting does not write the source font (effect analysis) || covorder: coverage indices of a rebuilt subtable are not handed out in map iteration order (a coverage table must number its glyphs in increasing glyph order, otherwise writing the subset panics)")
 	var fns []*ssa.Function
 	for _, fn := range w.LibFuncs() {
 		file := w.Fset.Position(fn.Pos()).Filename
@@ -246,6 +279,22 @@ func propC10(w *World, r *Report) {
 	checkCovOrder(w, r, fns)
 	checkWorklist(w, r, e, fns)
 	checkClosureFirst(w, r)
+	RunCodeSpace(w, r)
+	// "yields a font ... the subset can be written and read back": no panic on the way
+	r.Rule("panicreach: every explicit panic, unchecked type assertion and call of a function value taken from a map that is reachable from Font.Subset is the default of a type switch over a closed set (all implementers of the switched interface are cases), or a reviewed entry; the three layout subsetters SubsetGsub, SubsetGpos and SubsetGdef are left out: their panics are the explicit not-implemented cases for layout data the subsetter declares unsupported, which the property's domain excludes")
+	pe := mustFuncs(w, r, "(*sfnt.Font).Subset")
+	r.Conds["cmap-formats-agree"] = condFormatsAgree(w)
+	var pfns []*ssa.Function
+	for _, fn := range srcFuncsReachable(w, pe) {
+		switch fnName(fn) {
+		case "(*sfnt.subsetter).SubsetGsub", "(*sfnt.subsetter).SubsetGpos", "(*sfnt.subsetter).SubsetGdef":
+			// their panics are the explicit "not implemented" cases: the layout data the subsetter declares unsupported, outside the domain
+			continue
+		}
+		pfns = append(pfns, fn)
+	}
+	RunPanicReach(w, r, "panicreach", pe, pfns)
+	r.Floor("panicreach", 5)
 	RunControl(r, "worklist", "ctlClosure).close", func(cw *World, cr *Report, cf []*ssa.Function) { checkWorklist(cw, cr, nil, cf) })
 	r.Floor("worklist", 15)
 	r.Floor("gidsort", 12)
@@ -501,7 +550,9 @@ func checkDropped(w *World, r *Report, fns []*ssa.Function) {
 							}
 						}
 					}
-					if stored {
+					if stored && !storedAlways(fn, al) && !writesField(fn, "FeatureList") {
+						r.FailC("dropped", key, []string{"conditional"}, w.Pos(al.Pos()), "the rebuilt lookup is stored into the new lookup list only under a condition, and the feature list is taken over as it is: when a lookup is left out, the lookups behind it move up and the features point at the wrong lookups (or at none)", nil)
+					} else if stored {
 						r.OK("dropped", key, w.Pos(al.Pos()), "stored into the new lookup list")
 					} else {
 						r.Fail("dropped", key, w.Pos(al.Pos()), "a lookup is rebuilt for the subset but never stored into the new lookup list: the subset silently loses the lookup (and the glyphs it would substitute or position stay as they are)", nil)
@@ -1269,4 +1320,48 @@ func oldTableSource(v ssa.Value, depth int) *ssa.UnOp {
 		}
 	}
 	return nil
+}
+
+// storedAlways: some store of the allocated pointer is control-dependent on
+// no condition that the allocation itself is not dependent on (every
+// iteration that builds the value also stores it).
+func storedAlways(fn *ssa.Function, al *ssa.Alloc) bool {
+	cc := controlConds(fn)
+	base := map[ssa.Value]bool{}
+	for _, c := range cc[al.Block()] {
+		base[c] = true
+	}
+	if al.Referrers() == nil {
+		return false
+	}
+	for _, ref := range *al.Referrers() {
+		st, ok := ref.(*ssa.Store)
+		if !ok || st.Val != ssa.Value(al) {
+			continue
+		}
+		extra := false
+		for _, c := range cc[st.Block()] {
+			if !base[c] {
+				extra = true
+			}
+		}
+		if !extra {
+			return true
+		}
+	}
+	return false
+}
+
+// writesField: the function stores into a field of that name.
+func writesField(fn *ssa.Function, name string) bool {
+	for _, b := range fn.Blocks {
+		for _, in := range b.Instrs {
+			if st, ok := in.(*ssa.Store); ok {
+				if fa, ok := st.Addr.(*ssa.FieldAddr); ok && fieldName(fa) == name {
+					return true
+				}
+			}
+		}
+	}
+	return false
 }
